@@ -60,7 +60,7 @@ def check_model(ctx, m, tags, gen, rng, options=None, npoints=5):
             if initial and not m["ieqs"]:
                 continue
             try:
-                blocks = mflat.residual_blocks(m, env, initial)
+                blocks, scale = mflat.residual_blocks(m, env, initial, with_scale=True)
             except mexpr.Undefined as u:
                 ctx.discard("point:" + str(u)[:30])
                 continue
@@ -74,7 +74,7 @@ def check_model(ctx, m, tags, gen, rng, options=None, npoints=5):
                               "residual evaluation raised %r\n%s" % (e, text), case)
                 return model
             ctx.monitor("initial_residual_points" if initial else "dae_residual_points")
-            bad = mflat.compare_blocks(blocks, got)
+            bad = mflat.compare_blocks(blocks, got, scale=scale)
             if not initial:
                 ok_points += 1
             if bad:
